@@ -9,7 +9,7 @@ def bounded(pb, interp, rng, tier):
     fails, ev = [], 0
 
     def fail(what, inst, observed, expected):
-        if len(fails) < 10:
+        if sum(1 for f_ in fails if f_["what"] == what) < 8:      # cap per kind: a known finding must not crowd out a new failure
             fails.append({"function": "pulsarbat.utils.real_to_complex", "what": what, "instance": inst, "inputs": {"case": inst},
                           "observed": str(observed)[:200], "expected": str(expected)[:200], "status": "mismatch"})
 
